@@ -268,6 +268,10 @@ func run(c *core.Ctx) int {
 			c.Count("operations_"+mode, int64(o.NOps))
 			c.Count("modules_instantiated", int64(o.Modules))
 			for k, n := range o.Ops {
+				if strings.HasPrefix(k, "othererr:") {
+					c.Distinct("errors_other_than_name_in_use_or_closed", strings.TrimPrefix(k, "othererr:"))
+					continue
+				}
 				c.Count("op:"+k, int64(n))
 				if i := strings.IndexByte(k, '='); i > 0 && !strings.Contains(k, ":") {
 					c.Distinct("op_kinds_"+mode, k[:i])
